@@ -3,7 +3,9 @@
 (* library-level composition is design-checked by MC_Seq / MC_Region; here *)
 (* TLC enumerates the command-level configurations.)                        *)
 EXTENDS Cli, Json, IOUtils, SequencesExt, CSV
-CONSTANTS Stride, Offset
+CONSTANTS Stride, Offset,
+          CmdSet,     \* the commands to drive (a property check drives the commands its statement names)
+          FastaOnly   \* only the -F fasta variants
 
 F(key, lab, t) == [key |-> key, label |-> lab, loc |-> t, built |-> TRUE]
 Tables == <<
@@ -33,8 +35,10 @@ Specs == {[k |-> "sel", key |-> k] : k \in {"gene", "CDS", "misc_feature", "sour
          \cup {[k |-> "loc", t |-> Pt(3)], [k |-> "loc", t |-> Rg(2, 6, FALSE, FALSE)], [k |-> "loc", t |-> Cp(Rg(2, 6, FALSE, FALSE))], [k |-> "loc", t |-> Cp(Pt(4))], [k |-> "all"]}
 Locators == ({[x |-> x, m |-> m] : x \in Specs, m \in Mods} \ {[x |-> [k |-> "all"], m |-> None]})
             \cup {[x |-> [k |-> "mod", m |-> m], m |-> None] : m \in {[k |-> "head", p |-> 3], [k |-> "hh", p |-> 2, q |-> 5], [k |-> "ht", p |-> 2, q |-> -2], [k |-> "tail", p |-> -1]}}
-Cmds == { <<"delete", <<>>>>, <<"delete", <<"-e">>>>, <<"insert", <<>>>>, <<"insert", <<"-e">>>>, <<"infix", <<>>>>, <<"infix", <<"-e">>>>, <<"split", <<>>>>, <<"rotate", <<>>>>,
-          <<"extract", <<>>>>, <<"extract", <<"-v">>>>, <<"delete", <<"-F", "fasta">>>>, <<"extract", <<"-F", "fasta">>>>, <<"split", <<"-F", "fasta">>>> }
+CmdsAll == { <<"delete", <<>>>>, <<"delete", <<"-e">>>>, <<"insert", <<>>>>, <<"insert", <<"-e">>>>, <<"infix", <<>>>>, <<"infix", <<"-e">>>>, <<"split", <<>>>>, <<"rotate", <<>>>>,
+          <<"extract", <<>>>>, <<"extract", <<"-v">>>>, <<"delete", <<"-F", "fasta">>>>, <<"extract", <<"-F", "fasta">>>>, <<"split", <<"-F", "fasta">>>>, <<"rotate", <<"-F", "fasta">>>>, <<"insert", <<"-F", "fasta">>>> }
+IsFasta(c) == \E j \in 1..Len(c[2]) : c[2][j] = "fasta"
+Cmds == {c \in CmdsAll : c[1] \in CmdSet /\ (~FastaOnly \/ IsFasta(c))}
 
 All == SetToSeq({<<ti, tp, lc, cm>> : ti \in 1..Len(Tables), tp \in 1..2, lc \in Locators, cm \in Cmds})
 Picked == SelectSeq([j \in 1..Len(All) |-> j], LAMBDA j : j % Stride = Offset % Stride)
